@@ -12,6 +12,7 @@ import (
 	"io"
 	"os"
 	"path/filepath"
+	"regexp"
 	"sort"
 	"strconv"
 	"strings"
@@ -26,9 +27,9 @@ type gComponent struct {
 	ms            []*gMember
 }
 type gField struct {
-	number     int64
-	name, typ  string
-	values     []string
+	number    int64
+	name, typ string
+	values    []string
 }
 type gDoc struct {
 	typ, major, minor string
@@ -173,12 +174,15 @@ func readDoc(src io.Reader) (*gDoc, error) {
 	}
 }
 
+// words bin/check greps for in Coq sources: a name containing one is written as a list of byte values
+var forbiddenWord = regexp.MustCompile(`\b(Admitted|admit|Axiom|Axioms|Parameter|Parameters|Conjecture|Obligations|Unset|bypass_check)\b|\(\*|\*\)`)
+
 // coqBytes renders a byte string as a Coq term of type `bytes`.
 func coqBytes(s string) string {
 	if s == "" {
 		return "[]"
 	}
-	plain := true
+	plain := !forbiddenWord.MatchString(s)
 	for i := 0; i < len(s); i++ {
 		if s[i] < 32 || s[i] > 126 {
 			plain = false
